@@ -196,8 +196,8 @@ Proof.
       cbn [fst snd xdma_spec_value]. rewrite Ez'. reflexivity.
     + destruct (has is_bytemask st); cbn [when]; repeat constructor.
       cbn [fst snd xdma_spec_value]. rewrite Ez'. reflexivity.
-    + repeat constructor. cbn [fst snd xdma_spec_value]. rewrite Es. reflexivity.
-    + rewrite Forall_forall. intros tv Hin. apply in_flat_map in Hin as (e & _ & Hin).
+    + cbn [app]. constructor; [cbn [fst snd xdma_spec_value]; rewrite Es; reflexivity|].
+      rewrite Forall_forall. intros tv Hin. apply in_flat_map in Hin as (e & _ & Hin).
       revert tv Hin. rewrite <- Forall_forall. unfold ext_vals. destruct b as [|m].
       * repeat constructor.
       * destruct (lookup_ext e m) as [vs|] eqn:El; apply tagged_ext_meets; intros i Hi;
@@ -253,6 +253,17 @@ Qed.
 Lemma firstn_length_le' {A} (l : list A) n : (n <= List.length l)%nat -> List.length (firstn n l) = n.
 Proof. intros H. rewrite firstn_length. lia. Qed.
 
+Lemma chunks4_length_ge : forall f (l : list Z), (List.length l <= f)%nat ->
+  (Z.to_nat ((Z.of_nat (List.length l) + 3) / 4) <= List.length (chunks4 f l))%nat.
+Proof.
+  induction f as [|f IH]; intros l Hl.
+  - destruct l; [simpl; lia|simpl in Hl; lia].
+  - destruct l as [|a l]; [simpl; lia|]. cbn [chunks4].
+    specialize (IH (skipn 4 (a :: l))). rewrite skipn_length in IH.
+    remember (List.length (a :: l)) as L. assert (1 <= L)%nat by (subst L; simpl; lia).
+    specialize (IH ltac:(lia)). cbn [List.length]. lia.
+Qed.
+
 Theorem gemmx_kernel_vals_aligned :
   forall n op gb l, 0 <= n -> gbody_okb n gb = true -> gemmx_kernel_vals n op gb = Some l ->
   map fst l = map tag_of_name (gemmx_kernel_fields n).
@@ -267,21 +278,10 @@ Proof.
       apply finish_tags.
       * apply firstn_length_le'. rewrite Eo. destruct resc as [r|]; cbn [gbody_okb] in Hok.
         -- unfold resc_okb in Hok. apply andb_true_iff in Hok as [H1 _]. apply Nat.leb_le in H1. cbn [r_shift]. exact H1.
-        -- cbn [r_shift]. clear. rewrite repeat_length.
-           (* default shifts (9,)*n: n chunks of 4 need n multiple of 4 for omap to succeed; length bound *)
-           assert (G : forall f (l : list Z), (List.length l <= f)%nat ->
-                        (Z.to_nat ((Z.of_nat (List.length l) + 3) / 4) <= List.length (chunks4 f l))%nat).
-           { induction f as [|f IH]; intros l Hl.
-             - destruct l; [simpl; lia|simpl in Hl; lia].
-             - destruct l as [|a l]; [simpl; lia|]. cbn [chunks4 List.length].
-               specialize (IH (skipn 4 (a :: l))). rewrite skipn_length in IH. cbn [List.length] in IH, Hl.
-               specialize (IH ltac:(lia)).
-               destruct (Nat.leb_spec (S (List.length l)) 4) as [Hs|Hs].
-               + assert (Z.to_nat ((Z.of_nat (S (List.length l)) + 3) / 4) <= 1)%nat by (apply Nat2Z.inj_le; rewrite Z2Nat.id by (apply Z.div_pos; lia); apply Z.div_le_upper_bound; lia). lia.
-               + replace (Z.of_nat (S (List.length l)) + 3) with ((Z.of_nat (S (List.length l) - 4) + 3) + 1 * 4) by lia.
-                 rewrite Z.div_add by lia. rewrite Z2Nat.inj_add by (try apply Z.div_pos; lia). simpl Z.to_nat at 2. lia. }
-           specialize (G (Z.to_nat n) (repeat 9 (Z.to_nat n))). rewrite repeat_length in G.
-           specialize (G ltac:(lia)). unfold cdiv4. rewrite Z2Nat.id in G by lia. exact G.
+        -- cbn [r_shift]. rewrite repeat_length.
+           pose proof (chunks4_length_ge (Z.to_nat n) (repeat 9 (Z.to_nat n))) as G.
+           rewrite repeat_length in G. specialize (G (le_n _)). unfold cdiv4.
+           rewrite Z2Nat.id in G by lia. exact G.
       * apply firstn_length_le'. rewrite map_length. destruct resc as [r|]; cbn [gbody_okb] in Hok.
         -- unfold resc_okb in Hok. apply andb_true_iff in Hok as [_ H2]. apply Nat.leb_le in H2. cbn [r_mult]. exact H2.
         -- cbn [r_mult]. rewrite repeat_length. lia.
